@@ -1,6 +1,6 @@
 """py2lean_c14 - extension module of the SrcTie source translator for property C14
 (`boltons.strutils`: `format_int_list`, `parse_int_list`, `complement_int_list`, `int_ranges_from_int_list`,
-`args2sh`, `args2cmd`).
+`args2sh`, `args2cmd`, `escape_shell_args`).
 
 Plugged into harness/py2lean.py through the spec key `ext: 'py2lean_c14'` (the hooks `prepass`, `translate_op`,
 `alias_nodes` that py2lean_c13 introduced; nothing in py2lean.py is edited):
@@ -779,8 +779,44 @@ class _Pre:
                 return _op('call.' + f, full, n)
         self.f = T().visit(self.f)
 
+    # -- R7 (round 3f): spec-declared externals as parameters --------------------------------------------------------
+    def r_extern(self):
+        """spec key `extern_params: {'sys.platform': '<param>'}`: a READ of the attribute `platform` of the standard
+        module `sys` (the top-level `import sys`, bound nowhere else) is an external input of the function: it becomes
+        the trailing parameter `<param>` (declared in the spec's `params`, type `Str`); the self-test sets the real
+        `sys.platform` to the value it passes.  Refused: a store to the attribute, `<param>` bound in the function,
+        any other use of the name `sys` in the function (it could hand the module out)."""
+        ext = self.spec.get('extern_params') or {}
+        for dotted, param in ext.items():
+            modname, attr = dotted.split('.')
+            if param not in self.spec['params'] or list(self.spec['params'])[-len(ext):].count(param) != 1:
+                raise Unsupported(self.f, 'extern parameter %s must be a trailing parameter of the spec' % param)
+            if self._local_stores(param) or any(isinstance(x, ast.Name) and x.id == param for x in ast.walk(self.f)):
+                raise Unsupported(self.f, 'the name %s is used by the function' % param)
+            pre = self
+            hits = []
+
+            class T(ast.NodeTransformer):
+                def visit_Attribute(self, n):
+                    if isinstance(n.value, ast.Name) and n.value.id == modname and n.attr == attr:
+                        if not isinstance(n.ctx, ast.Load):
+                            raise Unsupported(n, 'store to %s' % dotted)
+                        if not pre._is_std_module(modname, modname):
+                            raise Unsupported(n, '%s is not the top-level `import %s`' % (modname, modname))
+                        hits.append(n)
+                        return ast.copy_location(ast.Name(id=param, ctx=ast.Load()), n)
+                    self.generic_visit(n)
+                    return n
+            self.f = T().visit(self.f)
+            if any(isinstance(x, ast.Name) and x.id == modname for x in ast.walk(self.f)):
+                raise Unsupported(self.f, 'the module %s is used other than through %s' % (modname, dotted))
+            self.f.args.args.append(ast.arg(arg=param, annotation=None))
+            if hits:
+                self.note('extern')
+
     def run(self):
         self.f = copy.deepcopy(self.f)
+        self.r_extern()
         self.r_opt_param()
         self.r_unpack()
         self.r_deque()
@@ -1165,7 +1201,46 @@ def fam_args(rng, quick):
         yield dict(args=args, sep=rng.choice([' ', ' ', ',', '', '  ']))
 
 
+def fam_escape(rng, quick):
+    styles = ['', 'sh', 'cmd', 'SH', 'bash', 'c', 'cmd ', 'sh\n']
+    plats = ['win32', 'linux', 'darwin', 'win32 ', 'Win32', '', 'cygwin']
+    for st in styles:
+        for pl in plats:
+            yield dict(args=['a b', "it's", ''], sep=' ', style=st, _sys_platform=pl)
+    for case in fam_args(rng, quick):
+        case['style'] = rng.choice(styles[:3] * 3 + styles)
+        case['_sys_platform'] = rng.choice(plats[:2] * 3 + plats)
+        yield case
+
+
+def py_call(spec, fn, args):
+    """spec key `py_call` (py2lean_selftest.call_real): call the real function with the spec-declared externals set
+    to the values of the case (`extern_params`: the attribute of the real module is patched for the call)"""
+    import importlib
+    from bv import common
+    ext = spec.get('extern_params') or {}
+    pos = [args[py2lean.mangle(p)] for p in spec['params'] if p not in ext.values()]
+    saved = []
+    try:
+        for dotted, param in ext.items():
+            modname, attr = dotted.split('.')
+            mod = importlib.import_module(modname)
+            saved.append((mod, attr, getattr(mod, attr)))
+            setattr(mod, attr, args[py2lean.mangle(param)])
+        try:
+            with common.time_limit(5):
+                return 'ok', fn(*pos)
+        except common.CaseTimeout:
+            return 'exc', 'CaseTimeout'
+        except Exception as e:  # noqa: BLE001
+            return 'exc', type(e).__name__
+    finally:
+        for mod, attr, v in reversed(saved):
+            setattr(mod, attr, v)
+
+
 FAMILIES = {
+    'escape_shell_args': fam_escape,
     'args2sh': fam_args,
     'args2cmd': fam_args,
     'format_int_list': fam_format_int_list,
@@ -1207,15 +1282,25 @@ REJECT_SNIPPETS = [
     ('join of ints', "def f(xs):\n    return ','.join(xs)\n", {'xs': 'List Int'}, 'Str'),
     ('range with a step as a value', "def f(n):\n    return list(range(0, n, 2))\n", {'n': 'Int'}, 'List Int'),
     ('comprehension with a filter over int()', "def f(ps):\n    return [int(p) for p in ps if p]\n", {'ps': 'List Str'}, 'List Int'),
+    # round 3f: `extern`
+    ('extern: the module sys handed out', "import sys\ndef f(s):\n    m = sys\n    return m.platform\n",
+     {'s': 'Str', '_p': 'Str'}, 'Str', {'extern_params': {'sys.platform': '_p'}}),
+    ('extern: sys rebound by the module', "import sys\nsys = None\ndef f(s):\n    return sys.platform\n",
+     {'s': 'Str', '_p': 'Str'}, 'Str', {'extern_params': {'sys.platform': '_p'}}),
+    ('extern: store to sys.platform', "import sys\ndef f(s):\n    sys.platform = s\n    return s\n",
+     {'s': 'Str', '_p': 'Str'}, 'Str', {'extern_params': {'sys.platform': '_p'}}),
+    ('extern: sys.platform read without a declared parameter', "import sys\ndef f(s):\n    return sys.platform\n",
+     {'s': 'Str'}, 'Str'),
 ]
 
 
 def reject_tests(verbose=True):
     """-> list of snippets that were NOT refused (must be empty)"""
     bad = []
-    for label, src, params, result in REJECT_SNIPPETS:
+    for label, src, params, result, *more in REJECT_SNIPPETS:
         spec = {'module': 'snippets', 'qualname': 'f', 'lean_name': 'f', 'params': params, 'kind': 'function',
                 'result': result, 'raises': True, 'tie_theorem': '-', 'ext': 'py2lean_c14'}
+        spec.update(more[0] if more else {})
         text, infos = py2lean.translate_source(src, [spec], 'snippets', 'snippets.py')
         if not infos[0].get('error'):
             bad.append(label)
